@@ -908,6 +908,8 @@ FORMS_PRE = r"""
 #include <boost/multi/adaptors/blas/iamax.hpp>
 #include <boost/multi/adaptors/blas/gemm.hpp>
 #include <boost/multi/adaptors/blas/gemv.hpp>
+#include <boost/multi/adaptors/blas/herk.hpp>
+#include <boost/multi/adaptors/blas/syrk.hpp>
 #include <complex>
 #include <math.h>
 #include <stdlib.h>
@@ -929,6 +931,10 @@ static inline auto mk2(long s0, long o0, long n0, long s1, long o1, long n1) { r
 #define ZVEC multi::subarray<cplx, 1> x(mk1(x0, 0, n*x0), xb), y(mk1(y0, 0, n*y0), yb)
 #define MP Ctx* ctx, cplx* ab, long a0, long M, long K, cplx* bb, long b0, long N, cplx* cb, long c0, double ar, double ai
 #define MOPS multi::subarray<cplx, 2> a(mk2(a0, 0, M*a0, 1, 0, K), ab), b(mk2(b0, 0, K*b0, 1, 0, N), bb), c(mk2(c0, 0, M*c0, 1, 0, N), cb); cplx const al{ar, ai}
+#define HP cplx* ab, long a0, long N, long K, cplx* cb, long c0, double al
+#define HOPS multi::subarray<cplx, 2> a(mk2(a0, 0, N*a0, 1, 0, K), ab), c(mk2(c0, 0, N*c0, 1, 0, N), cb)
+#define SP double* ab, long a0, long N, long K, double* cb, long c0, double al
+#define SOPS multi::subarray<double, 2> a(mk2(a0, 0, N*a0, 1, 0, K), ab), c(mk2(c0, 0, N*c0, 1, 0, N), cb)
 #define GP Ctx* ctx, cplx* ab, long a0, long M, long K, cplx* xb, long x0, cplx* yb, long y0, double ar, double ai
 #define GOPS multi::subarray<cplx, 2> a(mk2(a0, 0, M*a0, 1, 0, K), ab); multi::subarray<cplx, 1> x(mk1(x0, 0, K*x0), xb), y(mk1(y0, 0, M*y0), yb); cplx const al{ar, ai}
 using namespace multi::blas::operators;
@@ -1020,6 +1026,24 @@ FORMS = [
         ("gemm(alpha, a, b, 1, c)", "blas::gemm(ctx, al, a, b, cplx{1.0, 0.0}, c);"),
         ("c += gemm(alpha, a, b)", "c += blas::gemm(ctx, al, a, b);"),
     ]),
+    ("herk(lower, beta=0)", "HP", "HOPS", "blas::herk(blas::filling::lower, al, a, 0.0, c);", [
+        ("herk(lower, alpha, a, c)", "blas::herk(blas::filling::lower, al, a, c);"),
+    ]),
+    ("herk(upper, beta=0)", "HP", "HOPS", "blas::herk(blas::filling::upper, al, a, 0.0, c);", [
+        ("herk(upper, alpha, a, c)", "blas::herk(blas::filling::upper, al, a, c);"),
+    ]),
+    ("herk(both triangles)", "HP", "HOPS", "blas::herk(blas::filling::upper, al, a, 0.0, c); blas::herk(blas::filling::lower, al, a, 0.0, c);", [
+        ("herk(alpha, a, c)", "blas::herk(al, a, c);"),
+    ]),
+    ("herk(both triangles, alpha=1)", "HP", "HOPS", "blas::herk(blas::filling::upper, 1.0, a, 0.0, c); blas::herk(blas::filling::lower, 1.0, a, 0.0, c);", [
+        ("herk(a, c)", "blas::herk(a, c);"),
+    ]),
+    ("syrk(lower, beta=0)", "SP", "SOPS", "blas::syrk(blas::filling::lower, al, a, 0.0, std::move(c));", [
+        ("syrk(lower, alpha, a, c)", "blas::syrk(blas::filling::lower, al, a, std::move(c));"),
+    ]),
+    ("syrk(upper, beta=0)", "SP", "SOPS", "blas::syrk(blas::filling::upper, al, a, 0.0, std::move(c));", [
+        ("syrk(upper, alpha, a, c)", "blas::syrk(blas::filling::upper, al, a, std::move(c));"),
+    ]),
     ("gemv(beta=0)", "GP", "GOPS", "blas::gemv_n(ctx, al, a.begin(), M, x.begin(), cplx{0.0, 0.0}, y.begin());", [
         ("gemv(alpha, a, x, 0, y)", "blas::gemv(ctx, al, a, x, cplx{0.0, 0.0}, y);"),
         ("y = gemv(alpha, a, x)", "y = blas::gemv(ctx, al, a, x);"),
@@ -1036,6 +1060,7 @@ FORMS = [
 FORM_ROUTINES = {
     "daxpy_": {0: 1, 1: 1, 3: 1, 5: 1}, "dcopy_": {0: 1, 2: 1, 4: 1}, "dswap_": {0: 1, 2: 1, 4: 1}, "dscal_": {0: 1, 1: 1, 3: 1},
     "ddot_": {0: 1, 2: 1, 4: 1}, "dnrm2_": {0: 1, 2: 1}, "dasum_": {0: 1, 2: 1}, "idamax_": {0: 1, 2: 1},
+    "zherk_": {0: 1, 1: 1, 2: 1, 3: 1, 4: 1, 6: 1, 7: 1, 9: 1}, "dsyrk_": {0: 1, 1: 1, 2: 1, 3: 1, 4: 1, 6: 1, 7: 1, 9: 1},
     "zdotc_": {0: 1, 2: 1, 4: 1}, "zdotu_": {0: 1, 2: 1, 4: 1}, "zgemv_": {0: 1, 1: 1, 2: 1, 3: 2, 5: 1, 7: 1, 8: 2, 10: 1},
     "_ZN3Ctx4gemmEcclllPKSt7complexIdES3_lS3_lS3_PS1_l": {6: 2, 11: 2}, "_ZN3Ctx4gemvEcllPKSt7complexIdES3_lS3_lS3_PS1_l": {4: 2, 9: 2},
 }
@@ -1100,6 +1125,8 @@ def forms_rule(rep, wd):
                 y0 = P.const(1) if ys == "1" else 2 + A("yp")
                 al = [fl("al")] if params == "LP" else []
                 arglists.append(("incx%s incy%s" % (xs, ys), [A("xb"), x0, A("xb") + A("dxy"), y0, 1 + A("nn")] + al + [A("rp")]))
+        elif params in ("HP", "SP"):
+            arglists = [("row-major padded", [A("ab"), K + A("ap"), N, K, A("cb"), N + A("cp"), fl("al")])]
         elif params == "MP":
             arglists = [("row-major padded", [A("ctx"), A("ab"), K + A("ap"), M, K, A("bb"), N + A("bp"), N, A("cb"), N + A("cp"), fl("ar"), fl("ai")])]
         else:
